@@ -66,7 +66,9 @@ def cmdMatches (req resp impl : String) : Result :=
     let r := responseMatchesRequest a b
     let spec := a.header.id == b.header.id && b.header.isResponse && a.header.opcode == b.header.opcode
                 && !b.header.isTruncated && (b.header.rcode == 0 || b.header.rcode == 3) && a.questions == b.questions
-    { model := b2s r, oracle := if impl == b2s spec then "ok" else "fail:C06:header-mismatch-not-discarded",
+    { model := b2s r, oracle := if impl == b2s spec then "ok"
+        else if impl == "panic" || impl == "hang" then "fail:C08:reply-check-panicked,fail:C06:reply-check-panicked"
+        else "fail:C06:header-mismatch-not-discarded",
       tags := if r then "match" else "mismatch" }
   | _, _ => bad "args"
 
